@@ -25,6 +25,8 @@ func allCases() []copyCase {
 	cs = append(cs, deepCases()...)
 	cs = append(cs, schemeCases()...)
 	cs = append(cs, mpCases()...)
+	cs = append(cs, btpCases()...)
+	cs = append(cs, rpCases()...)
 	return cs
 }
 
